@@ -1440,14 +1440,24 @@ def split_modules(prog, rng, nmod):
     return mods, {"where": where, "pub": sorted(pub)}
 
 
-def module_source(decls, imports, style=None):
+def module_source(decls, imports, style=None, scatter=None):
+    """scatter: a random.Random - the import lines are then placed between (and after) the other declarations instead of at the
+    top (an import may stand anywhere among the top-level declarations)."""
     p = Printer(Program(), style or Style())
     p.lines = []
-    for imp in imports:
-        p.emit(0, 'import "%s";' % imp)
-    if imports:
-        p.emit(0, "")
-    for kind, d, is_pub in decls:
+    slots = {}
+    if scatter is not None and decls:
+        for imp in imports:
+            slots.setdefault(scatter.randrange(len(decls) + 1), []).append(imp)
+    else:
+        for imp in imports:
+            p.emit(0, 'import "%s";' % imp)
+        if imports:
+            p.emit(0, "")
+    for k, (kind, d, is_pub) in enumerate(decls):
+        for imp in slots.get(k, []):
+            p.emit(0, 'import "%s";' % imp)
+            p.emit(0, "")
         if kind == "const":
             p.decl_const(d, is_pub)
         elif kind == "struct":
@@ -1455,4 +1465,6 @@ def module_source(decls, imports, style=None):
         else:
             p.decl_func(d, is_pub)
         p.emit(0, "")
+    for imp in slots.get(len(decls), []):
+        p.emit(0, 'import "%s";' % imp)
     return p.layout(p.lines)
